@@ -144,6 +144,10 @@ CORPUS = [
     ("static-lt-under-min", mk([{"t": "min", "name": "N", "ch": [{"t": "lt", "name": "L", "ch": [C("A", 0, 1, u=2), C("B", 1, 1, n=2, u=3)]}]}], P(1))),
     # Min over an Allocation only: utility constant 1
     ("min-of-alloc", mk([{"t": "min", "name": "N", "ch": [{"t": "alloc", "name": "A", "allocs": [[0, 1]], "start": 0, "dur": 1}]}, C("B", 1, 1)], P(1))),
+    # F5: a satisfied zero-utility Choose under a Min gets no placement
+    ("zero-utility-under-min", mk([{"t": "min", "name": "N", "ch": [C("A", 0, 1, u=0), C("B", 1, 1, u=2)]}], P(1))),
+    # F6: the same task name in two independent subtrees, both satisfied
+    ("shared-task-name", mk([{"t": "min", "name": "N", "ch": [C("A", 0, 1, u=2), C("A", 1, 1, u=3)]}], P(1))),
     # plain cases: Max alternatives, Min all-or-nothing, Scale, LessThan over Max
     ("max-alt", mk([{"t": "max", "name": "M", "ch": [C("T", 0, 2, n=2, u=3, parts=(0, 1)), C("T", 1, 2, n=2, u=2, parts=(0, 1))]},
                     {"t": "min", "name": "N", "ch": [C("U", 0, 1, u=5), {"t": "alloc", "name": "A", "allocs": [[1, 1]], "start": 0, "dur": 3}]}], P(2, 1))),
